@@ -359,12 +359,12 @@ class dictable(Dict):
         kwargs = {key :_value(value) for key, value in kwargs.items()}
         data_kwargs = {key: _value(value) for key, value in _data_columns_as_dict(data, columns).items()}
         kwargs.update(data_kwargs)
-        kwargs = {str(key) if is_int(key) else key : value for key, value in kwargs.items()} ## an int names the column str(int), in the data as in columns
         if columns is not None and (is_str(columns) or len(columns) > 0) and (len(data_kwargs) == 0 or not is_str(columns)): ## the names need not be strings: an empty result is rebuilt from self.keys()
             names = [str(key) if is_int(key) else key for key in ([columns] if is_str(columns) else columns)] ## one name given as a string is one name, not its characters
+            kwargs = {str(key) if is_int(key) else key : value for key, value in kwargs.items()} ## an int names the column str(int), in the data as in columns
             kwargs = {key : kwargs.get(key, [None]) for key in names} if len(kwargs)>0 else {key : [] for key in names}
-        n = lens(*kwargs.values())
-        kwargs = {key : value * n if len(value)==1 else value for key, value in kwargs.items()}
+        n = lens(*kwargs.values()) ## over every column given: an int key beside its str() is one column in the end, its length still has to fit
+        kwargs = {str(key) if is_int(key) else key : value * n if len(value)==1 else value for key, value in kwargs.items()}
         super(dictable, self).__init__(kwargs)
         
     _dict = Dict
